@@ -1219,6 +1219,10 @@ caption_command(vbi_decoder *vbi, struct caption *cc,
 
 		case 12:	/* Erase Displayed Memory	001 c10f  010 1100 */
 // s1, s4: EDM always before EOC
+			/* EIA 608-B Annex B.7: Applies to the caption
+			   channel, also during a Text transmission. */
+			ch = &cc->channel[chan & 3];
+
 			if (ch->mode != MODE_POP_ON)
 				erase_memory(cc, ch, ch->hidden);
 
@@ -1229,6 +1233,9 @@ caption_command(vbi_decoder *vbi, struct caption *cc,
 
 		case 14:	/* Erase Non-Displayed Memory	001 c10f  010 1110 */
 // not verified
+			/* EIA 608-B Annex B.7, see EDM. */
+			ch = &cc->channel[chan & 3];
+
 			if (ch->mode == MODE_POP_ON)
 				erase_memory(cc, ch, ch->hidden);
 
